@@ -52,7 +52,7 @@ func (g *c19Gen) stmt(indent int, s string) int {
 func (g *c19Gen) block(indent int, n int, inFunc bool) {
 	for i := 0; i < n && g.budget > 0; i++ {
 		g.budget--
-		k := g.tape.Choose(30)
+		k := g.tape.Choose(31)
 		if g.depth >= 2 && (k == 1 || k == 2 || k == 3 || (k >= 14 && k <= 22)) {
 			k = 0
 		}
@@ -248,6 +248,9 @@ func (g *c19Gen) block(indent int, n int, inFunc bool) {
 			// marker: the marker would be the first node); the caller recovers and
 			// its result depends on the panic value
 			g.stmt(indent, fmt.Sprintf("x = loopg(x, %d)", g.tape.Choose(3)))
+		case 30:
+			// a closure created by an earlier evaluation of the session
+			g.stmt(indent, "x = pre(x % 50)")
 		case 13:
 			// select used sequentially: buffered channel, default clause
 			sc := fmt.Sprintf("sc%d", g.line+1)
@@ -552,6 +555,30 @@ func resString(v reflect.Value) string {
 	return fmt.Sprintf("%v:%v", v.Type(), v)
 }
 
+// c19Prelude is evaluated on the interpreter BEFORE the program is compiled and
+// debugged, as an earlier step of a session: the closure held by `pre` captures a
+// frame that was created when no debugger was attached.
+const c19Prelude = `package main
+
+func mkpre(k int) func(int) int {
+	return func(v int) int { return v + k }
+}
+
+var pre = mkpre(3)
+`
+
+// c19Session returns a fresh interpreter, with the prelude evaluated if the
+// program uses it.
+func c19Session(stdout *bytes.Buffer, src string) (*interp.Interpreter, error) {
+	it := c19Interp(stdout)
+	if strings.Contains(src, "pre(") {
+		if _, err := it.Eval(c19Prelude); err != nil {
+			return nil, err
+		}
+	}
+	return it, nil
+}
+
 func c19Interp(stdout *bytes.Buffer) *interp.Interpreter {
 	i := interp.New(interp.Options{Stdout: stdout, Stderr: &bytes.Buffer{}})
 	if err := i.Use(stdlib.Symbols); err != nil {
@@ -569,7 +596,11 @@ func c19Plain(src string, gp *C19Prog) (res c19Result) {
 	sink := host.NewSink(20000, nil)
 	host.Cur.Store(sink)
 	defer host.Cur.Store(nil)
-	it := c19Interp(&out)
+	it, err := c19Session(&out, src)
+	if err != nil {
+		res.errStr = "prelude: " + err.Error()
+		return res
+	}
 	prog, err := it.Compile(src)
 	if err != nil {
 		res.errStr = "compile: " + err.Error()
@@ -635,7 +666,11 @@ func c19PlainSecond(src string) (res c19Result) {
 	sink := host.NewSink(40000, nil)
 	host.Cur.Store(sink)
 	defer host.Cur.Store(nil)
-	it := c19Interp(&out)
+	it, err := c19Session(&out, src)
+	if err != nil {
+		res.errStr = "prelude: " + err.Error()
+		return res
+	}
 	p, err := it.Compile(src)
 	if err != nil {
 		res.errStr = "compile: " + err.Error()
@@ -915,7 +950,11 @@ func RunC19(t *testing.T, tape *Tape) *Outcome {
 				}
 				r.Finish2()
 			}()
-			it := c19Interp(&out)
+			it, err := c19Session(&out, src)
+			if err != nil {
+				setupFailed, setupErr = true, err.Error()
+				return
+			}
 			p, err := it.Compile(src)
 			if err != nil {
 				setupFailed, setupErr = true, err.Error()
